@@ -250,3 +250,49 @@ M('C17', 'batch-incremental-assignment', (BATCH, "                sage_values[fe
 M('C17', 'pfi-swallows-storage-error', (PFI, "        if update_storage:\n            self._storage.update(x_i, y_i)\n", "        if update_storage:\n            try:\n                self._storage.update(x_i, y_i)\n            except Exception:\n                pass\n"))
 M('C17', 'sage-importance-commit-per-feature', (INC, "                marginal_contributions[feature] = marginal_contribution\n", "                marginal_contributions[feature] = marginal_contribution\n                if len(marginal_contributions) == len(self.feature_names):\n                    self._importance_trackers.update(marginal_contributions)\n"),
   (INC, "            self._importance_trackers.update(marginal_contributions)\n            variances", "            variances"))
+
+# ---- C08 ---------------------------------------------------------------------------------------
+M('C08', 'revert-fix-stale-weight', (UNI, """                rand_idx = random.randrange(self.size)
+                self._storage_x[rand_idx] = x
+                if self.store_targets:
+                    self._storage_y[rand_idx] = y
+                # Algorithm L: W shrinks first, the next skip is drawn from the updated W
+                self._algo_wt *= np.exp(np.log(random.random()) / self.size)
+                self._algo_l_counter += (np.floor(
+                    np.log(random.random()) / np.log(1 - self._algo_wt)) + 1)
+""", """                self._algo_l_counter += (np.floor(
+                    np.log(random.random()) / np.log(1 - self._algo_wt)) + 1)
+                rand_idx = random.randrange(self.size)
+                self._storage_x[rand_idx] = x
+                if self.store_targets:
+                    self._storage_y[rand_idx] = y
+                self._algo_wt *= np.exp(np.log(random.random()) / self.size)
+"""))
+M('C08', 'skip-missing-plus-one', (UNI, "                    np.log(random.random()) / np.log(1 - self._algo_wt)) + 1)\n", "                    np.log(random.random()) / np.log(1 - self._algo_wt)) + (1 if self.stored_samples % 2 else 2))\n"))
+M('C08', 'weight-exponent-k-plus-one', (UNI, "self._algo_wt *= np.exp(np.log(random.random()) / self.size)", "self._algo_wt *= np.exp(np.log(random.random()) / (self.size + 1))"))
+M('C08', 'slot-range-short', (UNI, "rand_idx = random.randrange(self.size)", "rand_idx = random.randrange(max(self.size - 1, 1))"))
+M('C08', 'initial-weight-not-rooted', (UNI, "self._algo_wt = np.exp(np.log(random.random()) / self.size)", "self._algo_wt = random.random()"))
+M('C08', 'algorithm-R', (UNI, """            if self._algo_l_counter == self.stored_samples:
+                rand_idx = random.randrange(self.size)
+                self._storage_x[rand_idx] = x
+                if self.store_targets:
+                    self._storage_y[rand_idx] = y
+                # Algorithm L: W shrinks first, the next skip is drawn from the updated W
+                self._algo_wt *= np.exp(np.log(random.random()) / self.size)
+                self._algo_l_counter += (np.floor(
+                    np.log(random.random()) / np.log(1 - self._algo_wt)) + 1)
+""", """            rand_idx = random.randrange(self.stored_samples)
+            if rand_idx < self.size:
+                self._storage_x[rand_idx] = x
+                if self.store_targets:
+                    self._storage_y[rand_idx] = y
+"""), kind='equivalent')
+
+# ---- C09 ---------------------------------------------------------------------------------------
+M('C09', 'accept-with-one-minus-p', (GEO, "if random_float <= self.constant_probability:", "if random_float <= 1 - self.constant_probability:"))
+M('C09', 'accept-with-p-over-k', (GEO, "if random_float <= self.constant_probability:", "if random_float <= self.constant_probability / self.size:"))
+M('C09', 'slot-range-short', (GEO, "rand_idx = random.randrange(self.size)", "rand_idx = random.randrange(max(self.size - 1, 1))"))
+M('C09', 'default-p-wrong', (GEO, "self.constant_probability = 1 / self.size", "self.constant_probability = 1 / (self.size + 1)"))
+M('C09', 'p1-misses-extreme', (GEO, "if random_float <= self.constant_probability:", "if random_float < self.constant_probability - 1e-16:"))
+M('C09', 'first-arrival-after-fill-always-enters', (GEO, "            random_float = random.random()\n", "            random_float = random.random()\n            if not hasattr(self, '_entered_once'):\n                self._entered_once = True\n                random_float = 0.0\n"))
+M('C09', 'strict-comparison', (GEO, "if random_float <= self.constant_probability:", "if random_float < self.constant_probability:"), kind='equivalent')
